@@ -1,5 +1,23 @@
 /-
   C09 oracle — on what a listener did with a script of reads.
+
+  The oracle judges the observation on EVERY script (any mix of valid messages, messages with a
+  bad hop limit, receive timeouts and read errors).  It is stated on the script alone and does
+  not consult the model:
+
+    * invalid messages are erased (`erase`): what is left decides the result —
+      `retriesExhausted` iff the erased script has `retries` consecutive timeouts before any
+      error, `readError` iff it has an error and no such run before it, `running` otherwise
+      (`expectedResult`, a search over the erased script, no attempt counter);
+    * the reads the listener consumed (`consumed`: up to and including the read that stopped it)
+      decide the rest — delivered = the valid messages of that prefix, in order; invalid = its
+      messages with a bad hop limit, in order; waits = one back-off per timeout of the prefix,
+      `k · backoffUnit` for the k-th timeout in a row (k = 0, 1, …; a delivered message starts a
+      new row, an invalid message does not).
+
+  `Props/C09.lean` proves that the model's output is the ONLY observation this oracle accepts
+  (`holds_iff`, `model_eq_expected`) and validates `consumed` (`consumed_least`: the shortest
+  prefix on which the result is decided).
 -/
 import Corerad.Model.Listener
 
@@ -7,8 +25,18 @@ namespace Corerad.Spec.C09
 
 open Corerad Corerad.Model
 
+/-- the statement's constants: five receive attempts, back-off in steps of 50 ms
+    (`Props.C09.gen_constants` ties the source's constants to them) -/
+def retries : Nat := 5
+def backoffUnit : Dur := 50 * ms
+
 def isMsg : Read → Bool
   | .msg .. => true
+  | _ => false
+
+/-- a message that fails validation: IPv6 hop limit other than 255 -/
+def isInvalid : Read → Bool
+  | .msg _ hop _ => hop != 255
   | _ => false
 
 def validOf : List Read → List (Nat × Nat)
@@ -21,7 +49,97 @@ def invalidOf : List Read → List Nat
   | .msg k hop _ :: r => if hop != 255 then k :: invalidOf r else invalidOf r
   | _ :: r => invalidOf r
 
-/-- For a script of messages only: every valid message is delivered, in order; every invalid
+/-- the script with every invalid message removed -/
+def erase (script : List Read) : List Read := script.filter (fun r => !isInvalid r)
+
+/-- the part of a script before its first read error -/
+def beforeErr (script : List Read) : List Read := script.takeWhile (fun r => r != Read.err)
+
+/-- some `n` consecutive reads of the script are timeouts -/
+def hasTimeoutRun (n : Nat) : List Read → Bool
+  | [] => n == 0
+  | x :: r => (List.replicate n Read.timeout).isPrefixOf (x :: r) || hasTimeoutRun n r
+
+/-- The result, decided by the erased script: exhausted iff `n` consecutive timeouts occur
+    before any error; a read error iff there is an error (and no such run before it). -/
+def expectedResultN (n : Nat) (script : List Read) : ListenResult :=
+  if hasTimeoutRun n (beforeErr (erase script)) then .retriesExhausted
+  else if (erase script).contains Read.err then .readError
+  else .running
+
+def expectedResult (script : List Read) : ListenResult := expectedResultN retries script
+
+/-- How many reads of the script the listener consumes (`c`: timeouts in a row so far): it stops
+    at the first error and at the `n`-th timeout in a row; an invalid message neither counts as
+    a timeout nor interrupts the row; a valid message starts a new row. -/
+def consumed (n : Nat) : List Read → Nat → Nat
+  | [], _ => 0
+  | .err :: _, _ => 1
+  | .timeout :: r, c => if c + 1 ≥ n then 1 else consumed n r (c + 1) + 1
+  | .msg _ hop _ :: r, c => (if hop == 255 then consumed n r 0 else consumed n r c) + 1
+
+/-- the reads the listener consumed -/
+def consumedPrefix (script : List Read) : List Read := script.take (consumed retries script 0)
+
+/-- the back-off after every timeout of a (consumed) script: `c · unit` for the timeout that
+    follows `c` timeouts in a row -/
+def backoffs (unit : Dur) : List Read → Nat → List Dur
+  | [], _ => []
+  | .timeout :: r, c => (c * unit) :: backoffs unit r (c + 1)
+  | .msg _ hop _ :: r, c => if hop == 255 then backoffs unit r 0 else backoffs unit r c
+  | .err :: r, c => backoffs unit r c
+
+/-- the one observation the property allows on a script -/
+def expected (script : List Read) : ListenOut :=
+  { delivered := validOf (consumedPrefix script)
+    invalid := invalidOf (consumedPrefix script)
+    waits := backoffs backoffUnit (consumedPrefix script) 0
+    result := expectedResult script }
+
+/-! ### the clauses of the oracle -/
+
+/-- no message was delivered that is not a valid (hop limit 255) message of the script -/
+def noInvalidDelivered (script : List Read) (o : ListenOut) : Bool :=
+  o.delivered.all (fun d => script.contains (Read.msg d.1 255 d.2))
+
+/-- delivered = the valid messages among the consumed reads, in order -/
+def deliveredOk (script : List Read) (o : ListenOut) : Bool :=
+  o.delivered == validOf (consumedPrefix script)
+
+/-- counted invalid = the invalid messages among the consumed reads, in order -/
+def invalidOk (script : List Read) (o : ListenOut) : Bool :=
+  o.invalid == invalidOf (consumedPrefix script)
+
+/-- the result is the one decided by the script with its invalid messages erased -/
+def resultOk (script : List Read) (o : ListenOut) : Bool :=
+  o.result == expectedResult script
+
+/-- one back-off per consumed timeout, growing by `backoffUnit` within a row of timeouts;
+    invalid messages neither add a wait nor restart or advance the row -/
+def waitsOk (script : List Read) (o : ListenOut) : Bool :=
+  o.waits == backoffs backoffUnit (consumedPrefix script) 0
+
+/-- The C09 oracle, on every script. -/
+def holds (script : List Read) (o : ListenOut) : Bool :=
+  noInvalidDelivered script o && deliveredOk script o && invalidOk script o &&
+  resultOk script o && waitsOk script o
+
+/-- which clause rejects the observation (empty when `holds`) -/
+def failedClause (script : List Read) (o : ListenOut) : String :=
+  if !noInvalidDelivered script o then
+    "a message was delivered that is not a valid (hop limit 255) message of the script: invalid messages must never be delivered"
+  else if !deliveredOk script o then
+    "the delivered messages must be exactly the valid messages among the reads consumed, in order"
+  else if !invalidOk script o then
+    "the invalid counter must count exactly the messages with a bad hop limit among the reads consumed"
+  else if !resultOk script o then
+    "the result must be the one decided by the script without its invalid messages: exhausted iff 5 timeouts in a row before any error, a read error iff an error comes first, running otherwise"
+  else if !waitsOk script o then
+    "the back-offs must be one per timeout, k*50ms for the k-th timeout in a row (k from 0), unaffected by invalid messages"
+  else ""
+
+/-- The former oracle, which constrained scripts of messages only (kept: `Props.C09.holds_messagesOnly`
+    shows that `holds` implies it): every valid message is delivered, in order; every invalid
     one is counted and nothing else happens; the listener is still running. -/
 def holdsMessagesOnly (script : List Read) (o : ListenOut) : Bool :=
   !script.all isMsg ||
